@@ -382,6 +382,7 @@ elf_load("C12", "c12_load_env_args1_v1", 1, True, "ARGS1", 18, 0x1003, 2, tier="
 add("C12", "c12_parser_symbols", "c11p::symbols($S)", unwind=12, timeout=900)
 add("PROBE11", "c11_parser_string_entry", "c11p::string_entry($S)", unwind=10, timeout=900, mem_gb=24)
 
+elf_load("PROBEF", "probe_load_full_env", 0, True, "ARGS1", 17, 0x1003, 0)
 add("PROBEV", "probe_vec_str_fs", "c11::probe_vec_str($S)", unwind=18, cbmc_args=FS)
 add("PROBEV", "probe_vec_str_plain", "c11::probe_vec_str($S)", unwind=18)
 
